@@ -21,6 +21,10 @@ type irange struct {
 	nonNeg  bool
 	unknown bool
 	nilp    bool
+	// provenance of the non-negative part: positions in Writer slice fields (len(w.X) taken around an
+	// append), or some other non-negative quantity (length of input data, loop counter)
+	pos    map[string]bool
+	nonpos bool
 }
 
 func (r *irange) addConst(c int64) {
@@ -35,6 +39,13 @@ func (r *irange) union(o irange) {
 		r.addConst(c)
 	}
 	r.nonNeg = r.nonNeg || o.nonNeg
+	r.nonpos = r.nonpos || o.nonpos
+	for p := range o.pos {
+		if r.pos == nil {
+			r.pos = map[string]bool{}
+		}
+		r.pos[p] = true
+	}
 	r.unknown = r.unknown || o.unknown
 	r.nilp = r.nilp || o.nilp
 }
@@ -145,6 +156,7 @@ func (g *ranger) valueUncached(v ssa.Value) irange {
 			case r.unknown:
 			case !any && r.nonNeg, any && lo+minStep >= 0:
 				r.nonNeg = true
+				r.nonpos = true // a counter, not a position
 			default:
 				r.unknown = true
 			}
@@ -153,6 +165,11 @@ func (g *ranger) valueUncached(v ssa.Value) irange {
 		switch ssau.Builtin(x) {
 		case "len", "cap":
 			r.nonNeg = true
+			if f := g.writerSliceOfLen(x); f != "" {
+				r.pos = map[string]bool{f: true}
+			} else {
+				r.nonpos = true
+			}
 			return r
 		case "":
 		default:
@@ -197,6 +214,11 @@ func (g *ranger) valueUncached(v ssa.Value) irange {
 		}
 		if c < 0 && g.lenAfterAppend(x.X, -c) {
 			r.nonNeg = true
+			if lc, ok := x.X.(*ssa.Call); ok {
+				if f := g.writerSliceOfLen(lc); f != "" {
+					r.pos = map[string]bool{f: true}
+				}
+			}
 			return r
 		}
 		in := g.value(x.X)
@@ -208,6 +230,11 @@ func (g *ranger) valueUncached(v ssa.Value) irange {
 		if in.nonNeg {
 			if c >= 0 {
 				r.nonNeg = true
+				if c == 0 {
+					r.pos, r.nonpos = in.pos, in.nonpos
+				} else {
+					r.nonpos = true
+				}
 			} else {
 				r.unknown = true
 			}
@@ -544,4 +571,23 @@ func (g *ranger) lenAfterAppend(v ssa.Value, k int64) bool {
 		}
 	})
 	return found
+}
+
+// writerSliceOfLen: call is len(w.X) for a slice field X of the Writer; returns X's name.
+func (g *ranger) writerSliceOfLen(call *ssa.Call) string {
+	if len(call.Common().Args) != 1 {
+		return ""
+	}
+	u, ok := call.Common().Args[0].(*ssa.UnOp)
+	if !ok {
+		return ""
+	}
+	fa, ok := u.X.(*ssa.FieldAddr)
+	if !ok || !g.w.isWriterType(fa.X.Type()) {
+		return ""
+	}
+	if f := ssau.FieldOf(fa); f != nil {
+		return f.Name()
+	}
+	return ""
 }
